@@ -24,16 +24,16 @@ CHECKS = {
          "0-3 headers, optional payload, every length symbolic up to 2^40: total/header lengths, prelude CRC over the first 8 bytes, header encoding (len8 name 0x07 len16 value), payload unchanged, message CRC over everything before; Err exactly when a name > 255, a value > 65535 or the total > 2^32-1; header sets of the five events as documented",
          "library models of Vec::put_*, checked_add, try_from, try_fold (listed in the evidence, validated by the witness frames); crc32fast trusted",
          "DESIGN.md 5/C15", False),
- "C05": ("rsx+kani", "source-level symbolic execution (rsx+z3) of every path of SignatureContext::check with SHA-256/HMAC uninterpreted; bounded model checking (Kani/CBMC) of the date / payload-mode parsers; reference-signed request family replayed on the real build",
+ "C05": ("rsx+kani", "source-level symbolic execution (rsx+z3) of every path of SignatureContext::check with SHA-256/HMAC uninterpreted; rsx on the header-value canonicaliser over symbolic character classes (space / tab / other, <= 6 characters) against the SigV4 Trim() rule; which text the verified signature was computed over (method, decoded path, query, signed headers of THIS request) on every authenticated path; bounded model checking (Kani/CBMC) of the date / payload-mode parsers; reference-signed request family replayed on the real build",
          "identity is returned only behind a successful comparison with the signature computed under the provider's secret for the looked-up key, provider errors are returned, no provider => refused (all paths); AmzDate/AmzContentSha256 parsers over all 16-/64-byte inputs; the canonical request and key derivation are validated end to end (real crypto) by 33 reference-signed cases incl. single-component alterations and canonical-equivalent rewrites",
          "crypto uninterpreted/collision-free in solver queries; the canonical-request string builder is not decided symbolically (stated in the evidence)",
          "DESIGN.md 5/C05", True),
- "C06": ("rsx+kani", "rsx+z3 over every path of SignatureContext::check (presigned branch); Kani/CBMC on parse_expires, AmzDate::to_time and the window arithmetic; reference presigner family against the real clock",
+ "C06": ("rsx+kani", "rsx+z3 over every path of SignatureContext::check (presigned branch) incl. the inputs of the signed text; rsx on the header-value canonicaliser (symbolic character classes); Kani/CBMC on parse_expires, AmzDate::to_time and the window arithmetic; reference presigner family against the real clock",
          "parameters read through get_unique, window test, identity = X-Amz-Credential, compare under the provider's secret (all paths); expiry text of 1-4 bytes and edge values; window outcome = date-900s <= now <= date+expires on a reduced replay of the function's statements (one day, expiry < 10^5 s); 35 reference-presigned cases incl. removal/duplication/alteration of every parameter",
          "the real v4_check_presigned_url exceeded the SAT solver (6.3 M variables): the window is decided on a replay of its statements; crypto uninterpreted",
          "DESIGN.md 5/C06", True),
- "C08": ("kani", "bounded model checking (Kani/CBMC) of the chunk-header grammar and of the two incremental readers under symbolic frame cuts; reference-encoded fault family with real HMAC on the real build",
-         "parse_chunk_meta over symbolic size/tag/signature/CRLF/junk bytes; read_meta_bytes/read_data equal their single-frame result for every cut; every single fault of a 3-chunk upload (altered/resized/swapped/duplicated/deleted/spliced/re-signed chunk, 14 truncation points, wrong declared length) ends the body with an error after delivering only verified bytes",
+ "C08": ("kani", "bounded model checking (Kani/CBMC) of the chunk-header grammar, of the two incremental readers under symbolic frame cuts and of the comparison inside check_signature (every presented signature of 63/64/65 arbitrary bytes against a fixed computed one, HMAC stubbed); reference-encoded fault family with real HMAC on the real build",
+         "parse_chunk_meta over symbolic size/tag/signature/CRLF/junk bytes; check_signature accepts exactly the byte-wise equal signature and hands on the computed one; read_meta_bytes/read_data equal their single-frame result for every cut; every single fault of a 3-chunk upload (altered/resized/swapped/duplicated/deleted/spliced/re-signed chunk, 14 truncation points, wrong declared length) ends the body with an error after delivering only verified bytes",
          "the async generator composing the readers does not fit CBMC and is validated by the family only; HMAC chain real in the family, absent in the harnesses",
          "DESIGN.md 5/C08", True),
  "C09": ("kani", "bounded model checking (Kani/CBMC) of the chunk-decoder readers under frame cuts (2-safety against the single-frame run); partition/readiness family on the real build for all four body kinds",
@@ -44,7 +44,7 @@ CHECKS = {
          "identity only behind the comparison of HMAC(policy) under the provider's secret; every form field bound to the PutObject member the model names; file bytes exact for contents with CR/LF runs, boundary look-alikes and binary data (family); policy expiration/conditions are not enforced (4 known findings)",
          "the multipart parser is exercised by the family only (every cut of a form with a trailing field; a form with one token per header-equivalent field); crypto uninterpreted in solver queries",
          "DESIGN.md 5/C10", False),
- "C11": ("rsx+kani", "rsx+z3 over every path of SignatureContext::check (V2 branches); Kani/CBMC on AuthorizationV2::parse; reference V2 signer family",
+ "C11": ("rsx+kani", "rsx+z3 over every path of SignatureContext::check (V2 branches) incl. the inputs of the signed text (the path AS SENT, not percent-decoded); rsx precise mode on sig_v2::create_string_to_sign; Kani/CBMC on AuthorizationV2::parse; reference V2 signer family",
          "dispatch precedence, identity, compare under the provider's secret, Expires test before acceptance (all paths); AuthorizationV2 grammar over all 5-byte texts; 21 reference-signed cases incl. sub-resources, repeated x-amz headers and single-component alterations",
          "HMAC-SHA1 uninterpreted in solver queries; the V2 string-to-sign builder is validated by the family only",
          "DESIGN.md 5/C11", True),
@@ -64,7 +64,7 @@ CHECKS = {
          "all patterns x inputs of concrete sizes up to 7x7 over every 7-bit byte (8x8 over a small alphabet, 3x3 over all bytes), panic/overflow freedom included; pattern sets of zero or one pattern; empty patterns refused; policy documents: decode(encode(v)) == v for every value of every model type within size 2 (symbolic strings), and decode(document) == the IAM grammar's reading (or refusal) for every JSON document within nesting depth 2 / width 2 and for every Statement / Policy object with any subset of members and at most one faulty member",
          "pattern sets of two or more patterns and longer strings are outside the claim; the serde derive / serde_json semantics are a library model (assumptions in the evidence) checked against the real build on every sampled path; member names outside the grammar, several simultaneous faults and deeper documents are outside the claim",
          "DESIGN.md 5/C20 and 0.7", True),
- "C07": ("rsx", "source-level symbolic execution of ops::call/prepare, SignatureContext::check (all v2/v4 branches) and every generated Operation::call; z3 decides feasibility and entailment of the guard conditions on every path; concrete scenario family replayed on the real build",
+ "C07": ("rsx", "source-level symbolic execution of ops::call/prepare, SignatureContext::check (all v2/v4 branches) and every generated Operation::call; z3 decides feasibility and entailment of the guard conditions on every path; concrete scenario family (all five ways to present a signature, with and without a provider) replayed on the real build",
          "all feasible paths (no bound on requests/configurations: every Option/Result/flag is symbolic) are checked for: backend or custom-route call only after check() returned Ok and the access hook (or the default rule) approved, in that order; identity handed on is the payload of check(); check() authenticates only behind a successful comparison with a signature computed under the provider's secret for that key; denials are returned unchanged; no provider => signed requests refused",
          "trusts the rsx executor and its primitive catalogue (listed in the evidence; helper extractors are uninterpreted fallible functions), validated by 120 concrete scenarios signed by an independent reference signer; what the signature algorithms compute is C05/C06/C10/C11",
          "DESIGN.md 5/C07", False),
@@ -87,9 +87,9 @@ CHECKS["C19"] = ("rsx", "source-level symbolic execution (rsx + z3) of the objec
          "the file system is an effect-trace model (rename atomic, no disk faults), the path constructors are terms (C17), a dropped future runs the real Drop code of live FileWriter guards and nothing else; disk faults, process crashes, more than two writers symbolically and sub-await data races are outside the claim; the model is validated on the real backend on every run (about 190 fault runs); six known findings (temporary file leaked when dropped during File::create; object / metadata / internal-info are three files published one after another)",
          "DESIGN.md 0.8", True)
 
-CHECKS["C18"] = ("rsx", "source-level symbolic execution (rsx + z3) of get_object, copy_object, delete_object, put_object, upload_part, upload_part_copy, complete_multipart_upload, abort_multipart_upload and verify_upload_id of s3s-fs with Range::check, on the file-system effect-trace model of C19: ranged reads with symbolic 64-bit object length and Range value against the RFC 9110 slice (linear integer arithmetic), multipart ownership (no effect before verify_upload_id answered true; its verdict == stored key equals caller's), assembly order of completed uploads, side files following the object, no fs::copy onto itself; every finding confirmed on the real backend (fixed mini-scenarios + the solver's range witnesses); random operation histories against an in-memory object store as validation",
-         "for every object length below 2^63 and every Range value the parser can produce: refusal, seek position, streamed length, Content-Length and Content-Range are exactly the RFC 9110 slice's and nothing panics; on every path of the four upload-driving operations no file-system effect precedes an approving ownership check; every successful completion concatenates parts 1..n in order; every successful object write leaves the user-metadata file equal to this write's metadata; 40 (thorough: 300) histories x 80 operations agree with the in-memory model",
-         "claimed for these parts only: listings, bucket operations and whole histories are NOT decided symbolically (directory walks over a real tree) and are covered by the native history family alone; last-modified times and stored checksums are outside; a suffix range of an empty object is left open (RFC 9110 and S3 disagree); the file system is the effect-trace model of C19 (assumptions in the evidence)",
+CHECKS["C18"] = ("rsx", "source-level symbolic execution (rsx + z3) of get_object, copy_object, delete_object, put_object, upload_part, upload_part_copy, complete_multipart_upload, abort_multipart_upload and verify_upload_id of s3s-fs with Range::check, on the file-system effect-trace model of C19: ranged reads with symbolic 64-bit object length and Range value against the RFC 9110 slice (linear integer arithmetic), multipart ownership (no effect before verify_upload_id answered true; its verdict == stored key equals caller's), assembly order of completed uploads, side files following the object, no fs::copy onto itself, list_objects_v2 + normalize_path on a bounded symbolic directory tree (names, prefix and marker symbolic, key order an uninterpreted total order); every finding confirmed on the real backend (fixed mini-scenarios + the solver's range witnesses); random operation histories against an in-memory object store as validation",
+         "for every object length below 2^63 and every Range value the parser can produce: refusal, seek position, streamed length, Content-Length and Content-Range are exactly the RFC 9110 slice's and nothing panics; on every path of the four upload-driving operations no file-system effect precedes an approving ownership check; every successful completion concatenates parts 1..n in order; every successful object write leaves the user-metadata file equal to this write's metadata; for every directory tree of up to 4 files in 2 levels the listing is exactly the keys with the prefix after the marker, ascending, each once; 40 (thorough: 1500) histories x 80 operations agree with the in-memory model",
+         "claimed for these parts only: listings beyond the tree bound or with a custom delimiter, bucket operations and whole histories are NOT decided symbolically and are covered by the native history family alone; the prefix test is an uninterpreted predicate shared by code and reference; last-modified times and stored checksums are outside; a suffix range of an empty object is left open (RFC 9110 and S3 disagree); the file system is the effect-trace model of C19 (assumptions in the evidence)",
          "DESIGN.md 0.8", True)
 
 NA = {
